@@ -1,6 +1,8 @@
 SPECIFICATION TraceSpec
 CONSTANTS
   RootName = {1080}
+  SideW = {1083}
+  SideN = {1083}
   GenToks = {}
   PathLen = 0
   MaxReq = 1000000
